@@ -258,6 +258,12 @@ func c08Run(c *ev.Ctx) {
 			// same length and the same additive checksums (Adler-32 / Fletcher-32 / byte sum are
 			// blind to +1,-2,+1 on three neighbours), an exact copy, and a one-byte change.
 			// Whatever a stage remembers from the previous chunk must not leak into the next.
+			// results of earlier calls stay what they were while later chunks go through the
+			// same pipeline objects (held: what the writer-side and the reader-side decoder
+			// returned for this payload)
+			heldW, _ := pl.Remove(enc)
+			heldR, _ := rp.ApplyFilters(enc)
+			heldWok, heldRok := bytes.Equal(heldW, x), bytes.Equal(heldR, x)
 			for _, sib := range c08Siblings(r, x) {
 				c.Evals(1)
 				c.Count("sibling_chunks_encoded", 1)
@@ -276,6 +282,12 @@ func c08Run(c *ev.Ctx) {
 				if sdec, err := rp.ApplyFilters(senc); err != nil || !bytes.Equal(sdec, sib.data) {
 					fail("sibling:reader-decode:"+sib.name+":"+c08ReaderCulprit(fs, sib.data), map[string]any{"len": n, "kind": kind, "err": fmt.Sprint(err), "first_diff": firstDiff(sdec, sib.data), "decodes_to_previous_chunk": bytes.Equal(sdec, x), "pipeline_sig": sig})
 				}
+			}
+			if heldWok && !bytes.Equal(heldW, x) {
+				fail("held-result-changed:writer-remove:"+sig, map[string]any{"len": n, "kind": kind, "first_diff": firstDiff(heldW, x)})
+			}
+			if heldRok && !bytes.Equal(heldR, x) {
+				fail("held-result-changed:reader:"+c08ReaderCulprit(fs, x), map[string]any{"len": n, "kind": kind, "first_diff": firstDiff(heldR, x), "pipeline_sig": sig})
 			}
 			// (3) corruption of a Fletcher-32 protected chunk: the checksum is verified on
 			// the stored bytes only when fletcher32 is the LAST stage of the pipeline
@@ -617,7 +629,7 @@ func c08EndToEnd(c *ev.Ctx) {
 var C08 = &ev.Property{
 	ID:    "C08",
 	Level: "exploration",
-	Rule: "package level: every ordered selection of distinct filters from {deflate(level 1-9), shuffle(elem 1,2,4,8,16), fletcher32, lzf} (64 orderings × seeded parameters) × 18-20 payload sizes (0 B..4 KiB, thorough up to 1 MiB; 2 MiB of zeros for compressing pipelines, thorough also 8 MiB) × 5 payload kinds plus periodic payloads (a random block repeated at periods 1,2,3,8,31-33,255-257,263-265,8191-8194 and, thorough, 32767-32769: back references at the compressors' length and window limits): Apply/Remove identity, pipeline message encode/parse identity, reader (core.ApplyFilters on a description built from the filters' ids/client data) decodes the writer's bytes; every payload is followed through the same filter objects by up to four near-copies of the same length (same Adler-32, same Fletcher-32, identical, one byte changed) that must each decode to themselves; " +
+	Rule: "package level: every ordered selection of distinct filters from {deflate(level 1-9), shuffle(elem 1,2,4,8,16), fletcher32, lzf} (64 orderings × seeded parameters) × 18-20 payload sizes (0 B..4 KiB, thorough up to 1 MiB; 2 MiB of zeros for compressing pipelines, thorough also 8 MiB) × 5 payload kinds plus periodic payloads (a random block repeated at periods 1,2,3,8,31-33,255-257,263-265,8191-8194 and, thorough, 32767-32769: back references at the compressors' length and window limits): Apply/Remove identity, pipeline message encode/parse identity, reader (core.ApplyFilters on a description built from the filters' ids/client data) decodes the writer's bytes; every payload is followed through the same filter objects by up to four near-copies of the same length (same Adler-32, same Fletcher-32, identical, one byte changed) that must each decode to themselves, and the decoded payload returned before them must still read the same afterwards; " +
 		"for pipelines ending in fletcher32 every byte position (<=512 B) or 200 sampled positions of the stored chunk is altered by a bit flip and both decoders must report an error. End to end: chunked filtered datasets through the public API in all accepted option combinations × superblock 0/2/3 (a third with consecutive chunks that are such near-copies of each other), reopened and read. " +
 		"distinct = distinct (pipeline with parameters) or e2e configuration descriptors; all are non-trivial.",
 	Assumptions: []string{
